@@ -598,7 +598,9 @@ def finish(ctx, level, explanation, t0, extra_cov=None, trusted_base=None):
 
     nontrivial = {o.key() for o in ctx.obs if not o.trivial}
 
-    evid_dir = os.path.join(VERIF_DIR, 'evidence')
+    # (PXV_EVIDENCE_DIR is used by the seed/refactoring test tools so that runs on a patched
+    #  tree never overwrite the evidence of the real tree)
+    evid_dir = os.environ.get('PXV_EVIDENCE_DIR') or os.path.join(VERIF_DIR, 'evidence')
     os.makedirs(evid_dir, exist_ok=True)
 
     replay_paths = []
